@@ -3,6 +3,7 @@
     python tools/make_seed_prompts.py <round-dir> theme     # round 4: one cross-cutting kind of maintenance work per author
     python tools/make_seed_prompts.py <round-dir> surface   # round 5: one slice of the public API/CLI surface per author
     python tools/make_seed_prompts.py <round-dir> gaps COV.json   # round 6: code the test suite never executes (coverage.py json report)
+    python tools/make_seed_prompts.py <round-dir> property  # round 7: ONE property text per author; mechanisms that need two sites / a history / a fault point
 
 Each author gets: the given property texts (properties.jsonl), one-line summaries of what EARLIER AUTHORS tried (taken
 from their own notes, i.e. seeded/*/meta.json 'needs_to_manifest'), and a scratch worktree. Nothing about the checks.
@@ -117,6 +118,38 @@ Workflow: make change A, run the suite, write and run the demo (must exit 1), sa
 When done, reply with a short summary: for A and B the property broken, function changed, one-line idea, what is needed to manifest, and confirmation that (i) the suite passed with the change, (ii) demo.py exits 1 with the change and 0 without.'''
 
 
+PROPERTY_LINE = """the single property above. Read the code that implements it (and its callers, the command-line front ends and the helpers it shares with other features) and find places where a plausible maintenance edit silently breaks it. This round asks for mechanisms of the following kinds, in this order of preference:
+ (a) TWO COOPERATING SITES: two small edits in different functions (or one edit whose effect only shows through another, unchanged, function) that each look fine alone;
+ (b) a HISTORY: the break only shows after a particular sequence of operations (create, then append/rename/re-create/merge/copy, then read), on the second use of an object, or on the second call in a process;
+ (c) a FAULT or BOUNDARY POINT: an exception, an interruption, an empty or final chunk, a block/chunk/buffer edge at one particular position;
+ (d) an unusual but valid INPUT SHAPE or OPTION COMBINATION that no ordinary use has."""
+
+
+def property_round(root, here, props):
+    """round 7: each author sees exactly one property text (statement + what it quantifies over) and earlier authors' ideas for THAT property"""
+    os.makedirs(os.path.join(root, "prompts"), exist_ok=True)
+    for p in props:
+        prior = []
+        for d in sorted(glob.glob(os.path.join(here, "seeded", "*", "meta.json"))):
+            m = json.load(open(d))
+            if m["property"] != p["id"]:
+                continue
+            lines = [l.strip() for l in m["needs_to_manifest"].splitlines() if l.strip() and not l.startswith("#")]
+            prior.append("- " + " ".join(lines)[:240])
+        wt = os.path.join(root, p["id"])
+        if not os.path.exists(wt):
+            subprocess.run(["git", "-C", "/repo", "worktree", "add", "-q", "--detach", wt, "HEAD"], check=True)
+        q = p.get("quantifier")
+        plist = f"{p['id']} ({p['title']}): {p['statement']}" + (f"\nIt is meant to hold for: {json.dumps(q)}" if q else "")
+        text = TMPL.format(wt=wt, plist=plist, assignment=PROPERTY_LINE, prior="\n".join(prior) or "(none)")
+        text = text.replace("The library is supposed to satisfy the following twenty properties:", "The library is supposed to satisfy the following property:")
+        text = text.replace("breaks at least one of the twenty properties above (say which one in notes.md: first line must be `PROPERTY: Cxx`)",
+                            f"breaks the property above (first line of notes.md must be `PROPERTY: {p['id']}`)")
+        with open(os.path.join(root, "prompts", p["id"] + ".txt"), "w") as f:
+            f.write(text)
+    print(len(props), "prompts in", os.path.join(root, "prompts"))
+
+
 def main():
     root = sys.argv[1]
     here = os.path.dirname(os.path.dirname(os.path.abspath(__file__)))
@@ -129,6 +162,8 @@ def main():
         prior.append(f"- ({m['property']}) " + " ".join(lines)[:200])
     os.makedirs(os.path.join(root, "prompts"), exist_ok=True)
     mode = sys.argv[2] if len(sys.argv) > 2 else "theme"
+    if mode == "property":
+        return property_round(root, here, props)
     table = THEMES if mode == "theme" else SURFACES if mode == "surface" else GAP_GROUPS
     cov = json.load(open(sys.argv[3])) if mode == "gaps" else None
     for k, theme in table.items():
